@@ -114,6 +114,30 @@ theorem crank_nicolson_cov (a cc : K) (h : a * a = 1 - cc * cc) (S : Matrix n n 
     (a * a) • S + (cc * cc) • S = S := by
   rw [← add_smul, h, sub_add_cancel, one_smul]
 
+/-- The coefficient identity is also **necessary**: if the covariance `Σ` is not the zero matrix, then
+`a² Σ + c² Σ = Σ` forces `a² = 1 − c²`.  A retained-momentum factor computed from any other coefficient
+than the one multiplying the fresh draw (for example a factor memoised at construction while the
+coefficient attribute is reassigned later) therefore does not leave the momentum law invariant. -/
+theorem crank_nicolson_cov_necessary [IsDomain K] (a cc : K) (S : Matrix n n K) (i j : n) (hS : S i j ≠ 0)
+    (h : (a * a) • S + (cc * cc) • S = S) : a * a = 1 - cc * cc := by
+  have h1 := congrFun (congrFun h i) j
+  simp only [Matrix.add_apply, Matrix.smul_apply, smul_eq_mul] at h1
+  have h2 : (a * a + cc * cc - 1) * S i j = 0 := by
+    have : (a * a + cc * cc - 1) * S i j = a * a * S i j + cc * cc * S i j - S i j := by ring
+    rw [this, h1, sub_self]
+  rcases mul_eq_zero.mp h2 with h3 | h3
+  · have : a * a = 1 - cc * cc := by
+      have h4 : a * a + cc * cc - 1 + (1 - cc * cc) = a * a := by ring
+      rw [← h4, h3, zero_add]
+    exact this
+  · exact absurd h3 hS
+
+/-- Concrete instance: retaining with the factor of coefficient `3/5` (that is `4/5`) while refreshing
+with coefficient `4/5` turns the unit covariance into `32/25`, not `1`. -/
+example : ((4 / 5 : ℚ) * (4 / 5)) • (1 : Matrix (Fin 1) (Fin 1) ℚ) + ((4 / 5 : ℚ) * (4 / 5)) • 1 ≠ 1 := by
+  intro h
+  have := crank_nicolson_cov_necessary (4 / 5 : ℚ) (4 / 5) (1 : Matrix (Fin 1) (Fin 1) ℚ) 0 0 (by simp) h
+  norm_num at this
 /-- **Invariance of the second moment under the Crank–Nicolson update**: if the current
 momentum `p` and the fresh draw `m` are independent (product sample), both with zero mean, unit
 total weight and second moment `Σ`, then `a p + c m` has second moment `Σ`. -/
